@@ -14,7 +14,8 @@ def check(ctx, rep):
         key = "range::Range::" + fn
         pipeline(rep, prog, key)
         abstract_ok = level1(ctx, rep, prog, key, fn, pick, maxn)
-        structured(ctx, rep, prog, key, fn, pick, required=not abstract_ok)
+        struct_ok = structured(ctx, rep, prog, key, fn, pick, required=not abstract_ok)
+        concrete(ctx, rep, prog, key, fn, pick, required=not (abstract_ok or struct_ok))
 
 
 def mk_range(nalts):
@@ -148,8 +149,13 @@ def structured(ctx, rep, prog, key, fn, pick, required):
                 try:
                     r = it.call_body(key, [Ptr(Cell(mk_range(1))), Ptr(slice_cell)])
                 except Inconclusive as e:
-                    rep.inconc("%s: %s" % (rule, e.reason), e.where)
-                    return
+                    if not required:
+                        rep.inconc("%s: %s" % (rule, e.reason), e.where)
+                    else:
+                        rep.notes.append("%s: opaque alternatives do not apply to this implementation (%s at %s); decided by "
+                                         "the concrete-range table instead" % (rule, e.reason, e.where))
+                        rep.rules[rule]["floor"] = 0
+                    return False
                 except Panic as p:
                     rep.fail(rule, "%s|%s|%s panic" % (key, rule, cls), "panics: %s" % p)
                     continue
@@ -165,6 +171,126 @@ def structured(ctx, rep, prog, key, fn, pick, required):
                     ranks[i] = rk
                 judge(rep, rule, key, cls, r, slice_cell, ranks, list(flat), pick, it, prog)
     rep.analysed_item("%s interpreted on structured slices (%d cases, stride %d)" % (key, count, stride))
+    return True
+
+
+_CS = {}
+
+
+def _ranks(vs):
+    import functools
+    n = len(vs)
+    order = sorted(range(n), key=functools.cmp_to_key(lambda a, b: minver.vcmp(vs[a], vs[b])))
+    ranks = [0] * n
+    rk = 0
+    for idx, i in enumerate(order):
+        if idx > 0 and minver.vcmp(vs[order[idx - 1]], vs[i]) != 0:
+            rk += 1
+        ranks[i] = rk
+    return ranks
+
+
+def _concrete_worker(chunk):
+    prog, env, key, pick_name = _CS["prog"], _CS["env"], _CS["key"], _CS["pick"]
+    pick = max if pick_name == "max" else min
+    out = []
+    for alts, elems in chunk:
+        names = ["v%d" % i for i in range(len(elems))]
+        vals = [minver.mk_version(prog, names[i], e) for i, e in enumerate(elems)]
+        slice_cell = Cell(ListV(vals))
+        it = Interp(prog, minver.MinPolicy(), overrides={})
+        R = minver.build_range(prog, env, alts)
+        cls = "range %s" % " || ".join(_alt_class(a) for a in alts)
+        detail = "range `%s`, versions [%s]" % (" || ".join(minver.alt_str(a) for a in alts), ", ".join(minver.vstr(e) for e in elems))
+        try:
+            r = it.call_body(key, [Ptr(Cell(R)), Ptr(slice_cell)])
+        except Inconclusive as e:
+            out.append(("inconclusive", (e.reason, e.where), cls, detail, None))
+            continue
+        except Panic as p:
+            out.append(("panic", str(p), cls, detail, path_sig(it)))
+            continue
+        sat = [minver.sat_range(alts, e) for e in elems]
+        ranks = _ranks(list(elems))
+        sats = [i for i in range(len(elems)) if sat[i]]
+        problem = None
+        if not sats:
+            if is_some(r):
+                problem = "returned Some although no element satisfies"
+        elif not is_some(r):
+            problem = "returned None although an element satisfies"
+        else:
+            p = r.fields[0]
+            if not (isinstance(p, Ptr) and p.cell is slice_cell and len(p.path) == 1 and p.path[0][0] == "i"):
+                problem = "result is not a reference into the slice"
+            else:
+                k = p.path[0][1]
+                if not sat[k]:
+                    problem = "selected an element that does not satisfy"
+                elif ranks[k] != pick(ranks[i] for i in sats):
+                    problem = "selected an element that is not the %s satisfying one" % ("highest" if pick is max else "lowest")
+        sp = it.ret_span.get(key)
+        out.append(("ok" if problem is None else "fail", problem, cls, detail, path_sig(it), prog.span_str(sp) if sp else None))
+    return out
+
+
+def _alt_class(alt):
+    (lk, lv), (uk, uv) = alt
+    def b(k, v):
+        if k == "U":
+            return "unbounded"
+        return {"I": "Including", "E": "Excluding"}[k] + ("(prerelease)" if v[3] else "(release)")
+    return "[%s, %s]" % (b(lk, lv), b(uk, uv))
+
+
+def concrete(ctx, rep, prog, key, fn, pick, required):
+    """real ranges (1-2 alternatives with structured bounds) and real `satisfies`, slices of structured versions;
+    reference = the checker's model of satisfaction (cuts + prerelease gate). Decides implementations that look into
+    the alternatives themselves (fast paths, pre-filters). Bounded universe."""
+    import multiprocessing as mp
+    import os
+    from .. import intervals
+    rule = "T-" + fn.upper() + "-RANGES"
+    env = intervals.Env(prog)
+    universe = [(0, 0, p, pre) for p in (0, 1) for pre in ((), (0,), (1,))]
+    alts1 = minver.alternatives(minver.bound_universe(True))
+    slices = [()] + [(a,) for a in universe] + [(a, b) for a in universe for b in universe]
+    full = ctx.thorough or required
+    cases = []
+    for i, a in enumerate(alts1):
+        for j, sl in enumerate(slices):
+            if full or (i + j) % 4 == 0:
+                cases.append(([a], sl))
+    one_sided = [a for a in alts1 if a[0][0] == "U" or a[1][0] == "U"]
+    pairs = [(a, b) for a in one_sided for b in alts1 if a != b]
+    for i, (a, b) in enumerate(pairs):
+        if full or i % 7 == 0:
+            for j, sl in enumerate(slices[:7] + slices[7::5]):
+                if full or (i + j) % 3 == 0:
+                    cases.append(([a, b], sl))
+    rep.rule(rule, 1000, "%s on real ranges (1-2 alternatives, bounds from a universe of %d versions) and slices of up to 2 "
+                         "structured versions: None iff nothing satisfies, else the %s satisfying element" % (
+                             fn, len(universe), "highest" if pick is max else "lowest"))
+    _CS.update(prog=prog, env=env, key=key, pick="max" if pick is max else "min")
+    procs = min(16, os.cpu_count() or 1)
+    n = max(1, len(cases) // (procs * 8))
+    chunks = [cases[i:i + n] for i in range(0, len(cases), n)]
+    with mp.get_context("fork").Pool(procs) as pool:
+        res = pool.map(_concrete_worker, chunks)
+    for part in res:
+        for row in part:
+            st = row[0]
+            if st == "inconclusive":
+                rep.inconc("%s: %s" % (rule, row[1][0]), row[1][1])
+                continue
+            rep.path((rule, row[4]))
+            if st == "panic":
+                rep.fail(rule, "%s|%s|%s panic" % (key, rule, row[2]), "panics: %s (%s)" % (row[1], row[3]))
+            elif st == "ok":
+                rep.ok(rule)
+            else:
+                rep.fail(rule, "%s|%s|%s|%s" % (key, rule, row[2], row[1]), "%s: %s" % (row[1], row[3]), where=row[5])
+    rep.analysed_item("%s interpreted on %d (real range, structured slice) cases" % (key, len(cases)))
 
 
 def pipeline(rep, prog, key):
